@@ -21,7 +21,7 @@ def _methods(F, adt):
     return [f for f in F.fns if f.item.impl_self_def == adt and f.kind == "method" and f.item.impl_trait is None and not f.in_testonly()]
 
 
-def _family(F, f):
+def _own_family(F, f):
     out = [f]
     st = [f]
     while st:
@@ -30,6 +30,44 @@ def _family(F, f):
             out.append(c)
             st.append(c)
     return out
+
+
+def _private_callees(F, g):
+    """non-exported workspace functions of the same crate called (resolved statically) by body g"""
+    out = []
+    for b in g.blocks:
+        t = b["t"]
+        if t["k"] == "call" and "decl" in t["f"]:
+            d, r, rk = g.callee(t)
+            if r is not None and rk == "item":
+                h = F.by_path.get(r.path)
+                if h is not None and h.crate == g.crate and h.kind in ("fn", "method") and h.vis != "pub" and not h.reach and not h.in_testonly():
+                    out.append(h)
+    return out
+
+
+def _family(F, f, depth=3):
+    """f, its closures/coroutines, and (to `depth`) the private helpers they call with their closures: the effects of
+    a function include those of the helpers a refactoring may have extracted from it."""
+    seen = []
+    seen_set = set()
+    st = [(f, 0)]
+    while st:
+        x, d = st.pop()
+        for g in _own_family(F, x):
+            if id(g) in seen_set:
+                continue
+            seen_set.add(id(g))
+            seen.append(g)
+            if d < depth:
+                for h in _private_callees(F, g):
+                    if id(h) not in seen_set:
+                        st.append((h, d + 1))
+    return seen
+
+
+def _calls_transitively(F, a, b):
+    return any(g is b for g in _family(F, a)) and a is not b
 
 
 def _writes(F, f, owner):
@@ -73,6 +111,15 @@ def resolve(F):
     roles = {}
 
     def one(name, cands):
+        # a helper extracted from the role's function shares its effects: keep the caller-most candidate
+        if len(cands) > 1:
+            top = [c for c in cands if not any(_calls_transitively(F, o, c) for o in cands if o is not c)]
+            if len(top) >= 1:
+                cands = top
+        if len(cands) > 1:
+            named = [c for c in cands if c.qname == name]
+            if len(named) == 1:
+                cands = named
         if len(cands) == 1:
             roles[name] = cands[0]
 
@@ -109,6 +156,8 @@ def canonicalize(F):
         old = f.qname
         if old == canon:
             continue
+        if any(g is not f for g in F.by_qname.get(canon, [])):
+            continue    # the canonical name is taken by another function: leave both alone (rules fail closed if they must)
         renamed.append((old, canon))
         for c in F.crates.values():
             for it in c.items:
